@@ -293,7 +293,13 @@ def r6(run, ctx):
     t = tests[0]
     rs = [s.node for s in ctx.sites_calling(f, [A + '_restart']) if astq.call_is_yielded(s.node, s.call)]
     run.need('R6', rs, 'awaited _restart', f)
-    tb = cfg.branch_nodes(t, 'true')
+    # the branch taken when the two sections differ
+    differ = None
+    if isinstance(t.ast, ast.Compare) and len(t.ast.ops) == 1:
+        differ = {ast.NotEq: 'true', ast.Eq: 'false'}.get(type(t.ast.ops[0]))
+    if differ is None:
+        raise AnalysisError('C12 R6: unrecognised arbiter-section comparison %s' % norm_text(t.ast))
+    tb = cfg.branch_nodes(t, differ) - cfg.branch_nodes(t, 'false' if differ == 'true' else 'true')
     for r in rs:
         run.check('R6', r.id in tb, 'the restart belongs to the changed-arbiter branch', f, r.ast)
         after = cfg.reach(r, labels_excluded=('exc',))
